@@ -18,7 +18,7 @@ pub const ENTRY: Entry = Entry {
            framebuffer edge, 32767/32768, 65534..65537, aliases of in-bounds columns) : draw_iter streams of length 1, 2 and in/out/in \
            triples (thorough: all triples over a reduced lattice), fill_solid/fill_contiguous/clear over top_left in lattice^2 x size \
            lattice^2 restricted to valid embedded-graphics rectangles; on windows with non-trivial offsets inside larger framebuffers, \
-           all 8 orientations (set at init, and also changed at run time before the call), both `batch` settings, checked and wrapping arithmetic builds. Oracle per case: no panic, terminates, Ok, \
+           all 8 orientations (set at init, changed at run time before the call, and after a set_orientation whose k-th low-level operation failed - every k, recording and real transports - judged against the orientation the display then reports), both `batch` settings, checked and wrapping arithmetic builds. Oracle per case: no panic, terminates, Ok, \
            no protocol violation, controller memory == canvas that drops out-of-bounds points (catches aliasing), and a differential \
            twin fed only the in-bounds items. Non-trivial = at least one out-of-bounds item or clipped rectangle.",
     assumptions: &[
@@ -256,6 +256,70 @@ pub fn check_case(ctx: &Ctx, acc: &mut Acc, cfg: &Cfg, op: &Op, ck: &Checks, dif
     }
 }
 
+/// set_orientation(o2) with its k-th low-level operation failing, then `ops` one after the other on the same display.
+/// Returns (fault fired, first failure with the index of the failing operation).
+pub fn after_failed_orientation(cfg: &Cfg, o2: u8, k: u64, ops: &[Op]) -> (bool, Option<(String, String, usize)>) {
+    let mut rig = Rig::new(cfg);
+    if !rig.init.is_ok() {
+        return (false, None);
+    }
+    let at = rig.ops() + k;
+    let fired0 = rig.bd.borrow().failed_ops.len();
+    rig.set_faults(&[crate::env::Fault { at, mode: crate::env::FaultMode::Unchanged }]);
+    let failed = rig.apply(&Op::SetOrientation(o2));
+    rig.set_faults(&[]);
+    if rig.bd.borrow().failed_ops.len() == fired0 {
+        return (false, None);
+    }
+    rig.ctl.viols.clear();
+    // the orientation the display reports decides where pixels belong
+    let o = rig.dut.as_ref().unwrap().orientation();
+    let geo = crate::spec::Geo { orient: o, ..cfg.geo() };
+    let (lw, lh) = geo.lsize();
+    let mut canvas = crate::spec::Canvas::new(geo);
+    let c666 = cfg.c666();
+    for (i, op) in ops.iter().enumerate() {
+        if let Op::FillContiguous { r, .. } = op {
+            if clipped_area(r, lw, lh) > 1 << 12 {
+                continue;
+            }
+        }
+        let out = rig.apply(op);
+        spec_apply(&mut canvas, op, c666);
+        let mk = |kind: &str, m: String| Some((format!("{}/after-failed-set_orientation/{kind}", op.name()), format!("set_orientation({o2}) failed at its low-level operation {k} ({failed:?}), the display reports orientation {o}; then operation #{i} {op:?}: {m}"), i));
+        match &out {
+            Outcome::Ok => {}
+            Outcome::Panic(m) | Outcome::NonTermination(m) => return (true, mk("panic", m.clone())),
+            Outcome::Err(e) => return (true, mk("spurious-error", format!("{e:?}"))),
+        }
+        if let Some(v) = rig.ctl.viols.first() {
+            return (true, mk(viol_kind(v), format!("controller protocol violation: {v:?}")));
+        }
+        if let Some((x, y, got, want)) = rig.ctl.mem.first_diff(&canvas.mem) {
+            let kind = if !canvas.geo.in_window(x, y) { "write-outside-window" } else { "memory-mismatch" };
+            return (true, mk(kind, format!("framebuffer cell ({x},{y}): controller has {got:06x}, specification {want:06x} (ffffffff = untouched)")));
+        }
+    }
+    (true, None)
+}
+
+pub fn replay_fault(case: &serde_json::Value) -> i32 {
+    let cfg: Cfg = serde_json::from_value(case["cfg"].clone()).unwrap();
+    let ops: Vec<Op> = serde_json::from_value(case["history"].clone()).unwrap();
+    let (o2, k) = (case["o2"].as_u64().unwrap() as u8, case["k"].as_u64().unwrap());
+    println!("{cfg:?}: set_orientation({o2}) with low-level operation {k} failing, then {} operations", ops.len());
+    match after_failed_orientation(&cfg, o2, k, &ops).1 {
+        Some((s, m, _)) => {
+            println!("REPLAY: {s} -- {m}");
+            1
+        }
+        None => {
+            println!("REPLAY: passes");
+            0
+        }
+    }
+}
+
 fn run(ctx: &Ctx) -> Part {
     let t0 = Instant::now();
     let quick = ctx.quick();
@@ -313,6 +377,53 @@ fn run(ctx: &Ctx) -> Part {
             acc
         })
         .reduce(Acc::new, Acc::merge);
+    // ---- after a set_orientation whose k-th low-level operation failed (every k): the DrawTarget alphabet, applied to
+    // the same display, still only touches the panel window and equals the canvas of the orientation the display
+    // reports
+    let mut fjobs: Vec<(Cfg, u8)> = Vec::new();
+    for c in cfgs.iter().filter(|c| c.fb().0 < 1000) {
+        let g = c.geo();
+        if g.ox > 0 || g.oy > 0 || g.w < g.fw || g.h < g.fh {
+            fjobs.push((*c, (c.orient + 1) % 8));
+            fjobs.push((*c, c.orient ^ 6));
+        }
+    }
+    for tr in [Transport::Par8, Transport::Spi { len: 5 }, Transport::Par16] {
+        fjobs.push((Cfg::tiny(8, 6, false, tr, (4, 3, 2, 1), 1), 4));
+        fjobs.push((Cfg::tiny(4, 3, false, tr, (2, 2, 1, 1), 6), 3));
+    }
+    let fa = fjobs
+        .par_iter()
+        .fold(Acc::new, |mut acc, (cfg, o2)| {
+            let mut ops: Vec<Op> = Vec::new();
+            for_each_op(cfg, true, &mut |op, p| {
+                if p == Part2::Singles || p == Part2::Rects {
+                    ops.push(op);
+                }
+            });
+            for k in 0..64u64 {
+                let (fired, f) = after_failed_orientation(cfg, *o2, k, &ops);
+                if !fired {
+                    break;
+                }
+                acc.evaluations += 1;
+                acc.nontrivial += 1;
+                acc.transitions += 1 + ops.len() as u64;
+                acc.traces += 1;
+                acc.count("programs_after_failed_orientation_change", 1);
+                if let Some((sig, msg, upto)) = f {
+                    acc.violation(Violation {
+                        prop: ctx.prop.clone(),
+                        sig: format!("{sig}{}", if ctx.batch { "" } else { "/nobatch" }),
+                        msg,
+                        case: json!({"kind": "c02-fault", "variant": ctx.variant, "cfg": cfg, "o2": o2, "k": k, "history": ops[..=upto]}),
+                    });
+                }
+            }
+            acc
+        })
+        .reduce(Acc::new, Acc::merge);
+    let acc = acc.merge(fa);
     let bounds = json!({
         "configurations": cfgs.len(),
         "lattice_example_w4_F8": lattice(4, 8, true),
@@ -327,5 +438,6 @@ fn run(ctx: &Ctx) -> Part {
     part.require("class:clipped", 1);
     part.require("mixed_visible_and_clipped", 1);
     part.require("configs_with_cells_outside_window", 1);
+    part.require("programs_after_failed_orientation_change", 10);
     part
 }
